@@ -72,4 +72,24 @@ ImplFrom(run, L, k, chain, lastpath, cnt) ==
         IN <<ext.chain>> \o ImplFrom(run, L, k + 1, ext.chain, s.path, ext.cnt)
     ELSE <<chain>> \o ImplFrom(run, L, k + 1, chain, lastpath, cnt)
 ImplAddresses(run, L) == ImplFrom(run, L, 1, <<>>, <<>>, [x \in {} |-> 0])
+
+(* ------------------------------------------------------------------ implementation-shaped: the reader loop *)
+(* X12ContextReader.iter_segments as coded: one pass over the source with two pieces of state - the tree under          *)
+(* construction (None or the indices gathered so far) and whether any data node exists yet.  A segment inside the        *)
+(* requested loop starts a tree (yielding the one in progress) when it is the first segment of the loop itself, is      *)
+(* added to the tree otherwise - and the code raises EngineError when there is nothing to add it to; a segment outside   *)
+(* the loop closes the tree in progress and is yielded alone; the end of the input yields the tree in progress.           *)
+RECURSIVE ImplLoop(_, _, _, _, _)
+ImplLoop(src, L, k, tree, havenode) ==          \* result: [ys |-> yields, raised |-> BOOLEAN]
+  IF k > Len(src) THEN [ys |-> IF tree = <<>> THEN <<>> ELSE <<[kind |-> "tree", idx |-> tree]>>, raised |-> FALSE]
+  ELSE LET s == src[k] IN
+    IF InTree(s, L) THEN
+       IF StartsTree(s, L)
+       THEN LET r == ImplLoop(src, L, k + 1, <<k>>, TRUE)
+            IN [ys |-> (IF tree = <<>> THEN <<>> ELSE <<[kind |-> "tree", idx |-> tree]>>) \o r.ys, raised |-> r.raised]
+       ELSE IF ~havenode THEN [ys |-> <<>>, raised |-> TRUE]
+       ELSE ImplLoop(src, L, k + 1, Append(tree, k), TRUE)          \* (tree = <<>> here: the segment is hung below a plain segment node and never yielded)
+    ELSE LET r == ImplLoop(src, L, k + 1, <<>>, TRUE)
+         IN [ys |-> (IF tree = <<>> THEN <<>> ELSE <<[kind |-> "tree", idx |-> tree]>>) \o <<[kind |-> "seg", idx |-> <<k>>]>> \o r.ys, raised |-> r.raised]
+ImplGroups(src, L) == ImplLoop(src, L, 1, <<>>, FALSE)
 =============================================================================
